@@ -37,6 +37,9 @@ class MachineryError(Exception):
 def tree_hash():
     h = hashlib.sha256()
     files = []
+    # the fact files are rewritten in the reviewed vocabulary (rules/rename.py): what decides that is part of the key
+    files += [os.path.join(VERIF, "rules", "rename.py"), os.path.join(VERIF, "tables", "baseline_names.json")]
+    files = [f for f in files if os.path.exists(f)]
     for base in (REPO, os.path.join(VERIF, "roots"), os.path.join(VERIF, "fixtures"), os.path.join(DRIVER_DIR, "src")):
         for root, dirs, fs in os.walk(base):
             dirs[:] = sorted(d for d in dirs if d not in ("target", ".git", "msrv-test"))
@@ -182,6 +185,9 @@ def ensure_facts(kinds):
     lock = open(os.path.join(outdir, ".lock"), "w")
     fcntl.flock(lock, fcntl.LOCK_EX)
     try:
+        if "mono" in kinds and "poly" not in kinds:
+            kinds = list(kinds) + ["poly"]      # the mono graph is renamed with the plan found on the crates' own facts
+        kinds = sorted(kinds, key=lambda k: k != "poly")
         with open(os.path.join(outdir, "build.log"), "a") as log:
             for kind in kinds:
                 need = [f for f in KINDS[kind] if not _nonempty(os.path.join(outdir, f))]
@@ -197,11 +203,32 @@ def ensure_facts(kinds):
                     with open(fail, "w") as fh:
                         fh.write(msg)
                     raise BuildFailure(kind, msg)
+                _normalise(kind, outdir)
         os.utime(outdir, None)
         return outdir
     finally:
         fcntl.flock(lock, fcntl.LOCK_UN)
         lock.close()
+
+
+def _normalise(kind, outdir):
+    """Bring the fact files just written back to the reviewed vocabulary (see rules/rename.py)."""
+    if kind == "fixtures" or os.environ.get("VERIF_NO_RENAME"):
+        return
+    from . import rename
+    rp = os.path.join(outdir, "renames.json")
+    done = {}
+    if os.path.exists(rp):
+        with open(rp) as fh:
+            done = json.load(fh)
+    if kind == "mono":
+        pl = rename.normalise(outdir, KINDS[kind], use_plan=done["poly"])
+    else:
+        pl = rename.normalise(outdir, KINDS[kind])
+    done[kind] = pl
+    with open(rp + ".tmp", "w") as fh:
+        json.dump(done, fh, indent=1, sort_keys=True)
+    os.replace(rp + ".tmp", rp)
 
 
 def _nonempty(p):
